@@ -206,10 +206,8 @@ func (i *Interp) gorMain(g *gor) {
 		}
 		// hand the baton on
 		next := i.pickNext(g, true)
-		if next == nil {
-			if i.advanceClock() {
-				next = i.pickNext(g, true)
-			}
+		for next == nil && i.advanceClock() {
+			next = i.pickNext(g, true)
 		}
 		if next == nil {
 			// everyone else is blocked and will stay so: report deadlock in main
